@@ -24,9 +24,19 @@ func drawIDs(c0 uint32, g, per int) []uint32 {
 		go func(i int) {
 			defer wg.Done()
 			ids := make([]uint32, per)
+			// the generator of whatever protocol version: one goroutine in four draws through a
+			// generator of its own for version 1, 4 or 5 - the ids of the process share one counter
+			var gen func() common.Header
+			if i%4 == 3 {
+				gen = common.NewHeaderGenerator([]int{1, 4, 5}[i/4%3])
+			}
 			<-start
 			for k := range ids {
-				ids[k] = of.NewOfp13Header().Xid
+				if gen != nil {
+					ids[k] = gen().Xid
+				} else {
+					ids[k] = of.NewOfp13Header().Xid
+				}
 			}
 			all[i] = ids
 		}(i)
@@ -152,6 +162,6 @@ func runC14(seed uint64, tier, dir, replay string) error {
 	}
 	o.Add(fmt.Sprintf("(Conc %d %d %d)", workers, workers*jobsPer, mismatch),
 		map[string]interface{}{"kind": "concurrent-work", "goroutines": workers, "jobs": workers * jobsPer, "mismatches": mismatch}, "concurrent-work", "w")
-	o.Meta["rule"] = "transaction ids drawn by 2..64 goroutines from random counter values incl. values that wrap inside the round (all ids travel, sorted) and large rounds (statistics only); 32 goroutines building, encoding and parsing independent messages of all controller kinds and match fields, compared byte for byte (ids erased) with a sequential run of the same jobs; the harness is built with -race; distinct by goroutines x draws x wrap"
+	o.Meta["rule"] = "transaction ids drawn by 2..64 goroutines (through NewOfp13Header and through generators of their own for versions 1, 4 and 5) from random counter values incl. values that wrap inside the round (all ids travel, sorted) and large rounds (statistics only); 32 goroutines building, encoding and parsing independent messages of all controller kinds and match fields, compared byte for byte (ids erased) with a sequential run of the same jobs; the harness is built with -race; distinct by goroutines x draws x wrap"
 	return o.Close()
 }
